@@ -570,7 +570,7 @@ class World:
     def variant(self, vid):
         return apply_variant(self.desc, vid)
 
-    def make_config(self, vid=None, base_dir=None, root=None, d=None):
+    def make_config(self, vid=None, base_dir=None, root=None, d=None, ctx_override=None):
         """fresh Config object(s) for the root of variant vid (inline configs are mutated by Chain, never reused)"""
         from taskchain import Config
 
@@ -579,7 +579,8 @@ class World:
         base_dir = Path(base_dir or os.path.join(self.root_dir, 'data'))
         root = root or d['root']
         ctxdecl = (d.get('contexts') or {}).get(root, d.get('context')) if not isinstance(root, list) else d.get('context')
-        ctx = self._context_arg(d, ctxdecl, vid, [hash(str(root)) % 1000 * 10])
+        ctx = self._context_arg(d, ctxdecl, vid, [hash(str(root)) % 1000 * 10]) if ctx_override is None else ctx_override
+        self.last_context_arg = ctx
         gv = self._global_vars(d)
 
         def build(cid, top=True):
@@ -629,7 +630,7 @@ class World:
             return ns
         return dict(gv)
 
-    def chain(self, vid=None, base_dir=None, parameter_mode=True, d=None):
+    def chain(self, vid=None, base_dir=None, parameter_mode=True, d=None, ctx_override=None):
         from taskchain import Chain, MultiChain
 
         d = d or self.variant(vid)
@@ -638,7 +639,7 @@ class World:
         if isinstance(root, list):
             cfgs = [self.make_config(vid, base_dir, root=r, d=d) for r in root]
             return MultiChain(cfgs, parameter_mode=parameter_mode)
-        cfg = self.make_config(vid, base_dir, d=d)
+        cfg = self.make_config(vid, base_dir, d=d, ctx_override=ctx_override)
         return Chain(cfg, parameter_mode=parameter_mode)
 
     def dispose(self):
